@@ -219,6 +219,7 @@ finding("C10-heredoc-continuation-before-delimiter", "C10", "in an unquoted here
         all=["heredoc", "line:trailing-backslash"], why="the tokenizer's delimiter search would have to process continuations; the common case (continuation between ordinary body lines) was repaired")
 
 fixed("C10", "word of a here-string is not brace-expanded", "`cat <<<{1,2}` printed `1 2`")
+fixed("C10", "a here-document larger than the largest pipe is fed from a thread", "a here-document or here-string body larger than /proc/sys/fs/pipe-max-size (1 MiB) failed the command with `platform error: EPERM` (F_SETPIPE_SZ refused) instead of delivering the body")
 # ---------------------------------------------------------------------------------------------- C11
 finding("C11-nonfinal-compound-stage-inline", "C11", "a function, brace group, subshell or loop in a non-final pipeline position is executed inline while the pipeline is still being set up: with more data than the pipe holds (or an early-exit reader) the pipeline hangs",
         all=["nonfinal-compound-stage", "hang"], why="pipeline set-up design: compound stages must become concurrent tasks")
